@@ -52,6 +52,11 @@ def plan(tier):
     for one, two in pairs3:
         for outs in (('fail', 'ok', 'ok'), ('ok', 'fail', 'ok')) + ((('ok', 'ok', 'ok'), ('raise', 'raise', 'ok')) if tier == 'thorough' else ()):
             out.append((C.cfg(3, one, outs, 2, second=two), 1 if tier == 'thorough' else 0))
+    # an update that is not a mapping but is falsy ([]): FAILED like any other malformed result
+    for edges in (C.CHAIN2, C.CHAIN2S):
+        for wrk in (1, 2):
+            out.append((C.cfg(2, edges, ['emptyupdate', 'ok'], wrk), 1))
+    out.append((C.cfg(3, C.CHAIN3HS, ['ok', 'emptyupdate', 'ok'], 2), 0))
     # a DepGraph used as a node of the hard graph, added before or after the plain tasks: the flattened graph decides
     for edges in (C.JOIN3, C.CHAIN3, C.FORK3HS, C.TRI3):
         for members in ((0,), (1,), (2,), (0, 1), (1, 2), (0, 2)):
